@@ -183,11 +183,11 @@ def _c14():
 
 def _c15():
     hs = [H("c15::c15a_from_rgba_clamps", "Color::from_rgba / from_rgba_fn on four arbitrary f64 (NaN, infinities included)",
-            covers=("end", "nan_and_large")),
+            covers=("end", "nan_and_large"), flags=ST),
           H("c15::c15a_opacity_clamps", "with_alpha / fade_in / fade_out: arbitrary base colour and arbitrary f64 amount",
-            covers=("end", "zero_amount")),
+            covers=("end", "zero_amount"), flags=ST),
           H("c15::c15d_short_hex_iff_symmetrical", "all 2^24 8-bit colours: 3-digit hex chosen iff every channel has equal nibbles",
-            covers=("end", "short")),
+            covers=("end", "short"), flags=ST),
           H("c15::c15d_hex_literal_3", "hex literal reader on `#` + 3 arbitrary hex digits (either case): channels are d*17", covers=("end", "parsed"),
             flags=ST + ("--no-memory-safety-checks",)),
           H("c15::c15d_hex_literal_4", "`#` + 4 hex digits: #abcd = #aabbccdd", covers=("end", "parsed"), flags=ST + ("--no-memory-safety-checks",)),
@@ -195,18 +195,16 @@ def _c15():
           H("c15::c15d_hex_literal_8", "`#` + 8 hex digits", tiers=T, covers=("end", "parsed"), flags=ST + ("--no-memory-safety-checks",)),
           H("c15::c15b_as_hsla_literal", "Color::as_hsla on every named/hex literal colour (Color::new, all 2^24 channel triples, alpha byte 0 or 255): "
             "alpha equals alpha() and lies in [0,1], hue in [0,360], saturation and lightness in [0,1]", covers=("end", "opaque_named"), flags=ST),
-          H("c15::c15b_as_hsla_rgba", "the same for Color::from_rgba(r, g, b, any f64 alpha)", covers=("end", "translucent"), flags=ST),
-          H("c15::c15c_from_hwb_hue", "Color::from_hwb, hue path: any finite hue with |hue| < 2^20, (whiteness, blackness) from 10 fixed pairs "
-            "(incl. sums over 100 and 1e-14): integer channels in [0,255]", covers=("end", "negative_hue"), flags=ST, timeout=1500)] + [
+          H("c15::c15b_as_hsla_rgba", "the same for Color::from_rgba(r, g, b, any f64 alpha)", covers=("end", "translucent"), flags=ST)] + [
           H("c15::c15c_from_hwb_wb_h%s" % h, "Color::from_hwb, whiteness/blackness path: both any double in [0,100], any f64 alpha, hue = %s: "
             "integer channels in [0,255], alpha in [0,1]" % h, covers=("end", "tiny_whiteness_normalised_sum"), flags=ST)
           for h in ("0", "30", "200", "304")] + [
           H("c15::c15f_mix_endpoints", "Color::mix at weight 100% / 0% returns the first / second colour: all 8-bit channel triples for both colours, "
-            "alpha pairs from a list of 7", covers=("end", "full_weight_distinct", "zero_weight_distinct")),
+            "alpha pairs from a list of 7", covers=("end", "full_weight_distinct", "zero_weight_distinct"), flags=ST),
           H("c15::c15f_invert_twice", "Color::invert: 255 - channel with the same alpha; twice is the identity; weight 0 is the identity: all 8-bit "
-            "colours, any alpha in [0,1]", covers=("end", "translucent"))]
+            "colours, any alpha in [0,1]", covers=("end", "translucent"), flags=ST)]  # one flag set = one cargo-kani group: all run side by side
     from . import engine_f
-    d = _simple(hs, ["color::Color::{new, from_rgba, from_rgba_fn, red, green, blue, alpha, with_alpha, fade_in, fade_out, hue_to_rgb, as_hsla, from_hwb, mix, invert}",
+    d = _simple(hs, ["color::Color::{new, new_rgba (engine F: modelled as a store of its four numbers), from_rgba, from_rgba_fn, red, green, blue, alpha, with_alpha, fade_in, fade_out, hue_to_rgb, as_hsla, from_hwb, mix, invert}",
                      "value::number::{Number::clamp, Number::round, fuzzy_round}", "serializer::Serializer::{is_symmetrical_hex, can_use_short_hex}", "parse::value::ValueParser::{parse_hex_color_contents, parse_hex_digit}"],
                 "every f64 argument (full width, symbolic); all 8-bit channel triples; every hex literal of 3/4 (6/8 thorough) digits; hue_to_rgb on the lattice m1=a/L, m2=b/L, "
                 "hue=c/3L (L=32 quick, 256 thorough), every point; update_value (adjust/scale/change component update)",
@@ -216,13 +214,17 @@ def _c15():
                        "c15b_as_hsla_*: value::number::modulo -> its contract for the divisor 360 (finite |n1| < 2048*360 gives a result in [0,360]; "
                        "that contract is what engine F `c07_modulo` decides on the real code; the stub asserts the precondition)",
                        "c15c_from_hwb_*: value::number::fuzzy_round -> the contract engine F `c07_fuzzy_round` decides on the real code (|x| < 2^40: floor or ceil, "
-                       "nearest integer outside the 1e-11 zone around X.5); c15c_from_hwb_hue: f64::rem_euclid(_, 360) -> its documented contract (result in [0,360]); "
+                       "nearest integer outside the 1e-11 zone around X.5); "
                        "CBMC's own float remainder is not exact (a counterexample through the real rem_euclid/fuzzy_round did not reproduce natively)"])
     d["engines"] = [engine_f.make_engine("C15", [
         {"name": "c15_hue_to_rgb", "inputs": ["a", "b", "c3"], "tiers": ("quick",), "timeout": {"quick": 600},
          "bound": "hue_to_rgb (MIR->C) within [m1, m2] and channel in [0,255]: lattice L=32 (33x33x161 points)"},
         {"name": "c15_hue_to_rgb", "inputs": ["a", "b", "c3"], "tiers": ("thorough",), "extra": ["-DLAT=256"], "timeout": {"thorough": 2400},
          "bound": "hue_to_rgb lattice L=256"},
+        {"name": "c15_from_hwb", "inputs": ["h", "w", "b"], "tiers": ("quick",), "extra": ["-DPAIRS=3"], "timeout": {"quick": 1800},
+         "bound": "from_hwb (MIR->C incl. its closure, exact fmod): any finite hue with |hue| < 720000, (whiteness, blackness) in {(0,0), (30,70), (1e-14,100)}"},
+        {"name": "c15_from_hwb", "inputs": ["h", "w", "b"], "tiers": ("thorough",), "extra": ["-DPAIRS=5"], "timeout": {"thorough": 3000},
+         "bound": "from_hwb as above with 5 pairs (adds (100,100), (70,60))"},
         {"name": "c15_update_value", "inputs": ["current", "param", "big", "has", "a", "b"], "extra": ["-DUPD=1"], "replay": "c-native",
          "timeout": {"quick": 900, "thorough": 1800},
          "bound": "update_value (nested fn of adjust-/scale-/change-color, MIR->C), Adjust: current any double in [0, max], amount any finite double, max in {1, 255}"},
